@@ -27,11 +27,15 @@ LEVEL = "proof"
 LEVEL_TEXT = (
     "Lean 4 theorems about a transcription of HyperGraph.contract/compress/node_size and "
     "CompressedStatsTracker: merging a multibond under a cap that is not smaller than it leaves every "
-    "node size and pair cost unchanged (compress_preserves_product); the uncapped tracker equals the exact "
-    "tree figures -- flops = total_flops, write = total_write + input sizes, max_size = max(largest "
-    "intermediate, largest input) (uncapped_eq_exact and its guards); tracker arithmetic is monotone in the "
-    "per-step sizes (capped_le_uncapped). The model is tied to /repo on every run by step-by-step equality "
-    "correspondence of tracker and hypergraph state.")
+    "node size unchanged (prod_merge, compress_preserves_product); along plain contractions every node the "
+    "hypergraph creates carries the tree's legs and size (hg_contract_legs, any sequence), and a step of "
+    "compressed_contract_stats whose compression branches merge nothing adds exactly the tree's size to "
+    "write / max_size and the tree's flops (uncapped_eq_exact_partial; inputs are counted: init_counts_inputs); "
+    "for caps c1 <= c2 the runs go through the same hypergraph shapes with pointwise smaller sizes, so "
+    "write and max_size are monotone in the cap (capped_le_uncapped_partial). Partial: the quotient "
+    "simulation that lifts exactness through merges, and peak_size monotonicity, are covered by the "
+    "correspondence only. The model is tied to /repo on every run by step-by-step equality correspondence "
+    "of tracker and hypergraph state (nodes, edges, merged sizes).")
 LEVEL_NOTE = (
     "Trusted: Lean kernel; the hand-written model (validated on generated cases only); harness "
     "canonicalisation; kahypar (native) and the greedy heuristics are run, not modelled. QR-cost terms "
@@ -42,10 +46,15 @@ TECHNIQUE = ("Lean 4 proof (hypergraph state invariant, L1, tracker arithmetic) 
              "correspondence of compressed_contract_stats with /repo")
 LEAN_MODULES = ["CotengraVerif.Props.C20"]
 THEOREMS = [
+    "Cotengra.C20.prod_merge",
     "Cotengra.C20.compress_preserves_product",
+    "Cotengra.C20.init_counts_inputs",
     "Cotengra.C20.uncapped_eq_exact_partial",
     "Cotengra.C20.max_size_counts_inputs_counterexample",
-    "Cotengra.C20.capped_le_uncapped",
+    "Cotengra.C20.capped_le_uncapped_partial",
+    "Cotengra.C18.hg_contract_legs",
+    "Cotengra.C18.hg_cost_eq_tree_partial",
+    "Cotengra.C18.hg_cost_counterexample",
 ]
 TRUSTED = [
     "Lean 4.33 kernel; axioms within {propext, Classical.choice, Quot.sound}",
